@@ -47,6 +47,9 @@ PROPS = {
             # exhaustive: every chunk shape of every extent <= 4, <= 4x4, <= 3x3x2 (615 geometries) x nt 1,2,4; every in-range (pos,len) walk, aligned or not
             E("mcache", "e_mcache.c", model="mcache", quick=dict(cases=1500), thorough=dict(cases=20000, seeds=8, chunk=500)),
             E("chunk_exh", "e_chunk.c", model="chunk", quick=dict(cases=1845, args=["exh"], chunk=30), thorough=dict(cases=1845, seeds=1, args=["exh"], chunk=30)),
+            # cross-configuration oracle: one write/read history on contiguous, chunked, compressed, chunked+compressed, n-bit, external (HXsetdir list),
+            # unlimited+linked blocks, small DD blocks, access type; every configuration must read what the contiguous baseline reads (no model involved)
+            E("layout", "e_layout.c", model=None, quick=dict(cases=800, chunk=50), thorough=dict(cases=12000, seeds=4, chunk=300)),
         ],
         trusted_base=["mcache.c page cache and the chunk table Vdata/TBBT: not modelled here (chunk store = map chunk number -> buffer); "
                       "checked on the implementation by the shadow-array oracle under cache sizes 1..3, Hendaccess and reopen"],
